@@ -41,7 +41,29 @@ def strOps (k : Nat) (a b : Bytes) : String :=
   | .faulted => "fault cat"
   | _ => "stuck cat"
 
+/-- `let a = A1 .. A2; let b = B1 .. B2; let r = a .. b; let aa = a .. a; let m = a .. b;
+    let r1 = m .. a; let r2 = m .. b` on the heap model, then every cell is read back -/
+def strFrame (k : Nat) (a1 a2 b1 b2 : Bytes) : String :=
+  let total := a1.length + a2.length + b1.length + b2.length
+  let ks := slices k (3 * total + 1)
+  let h0 : Heap := [a1, a2, b1, b2]
+  let go : Option String := do
+    let (h, a, r) ← concatHeap h0 0 1 ks {}
+    let (h, b, r) ← concatHeap h 2 3 ks r
+    let (h, rr, r) ← concatHeap h a b ks r
+    let (h, aa, r) ← concatHeap h a a ks r
+    let (h, m, r) ← concatHeap h a b ks r
+    let (h, r1, r) ← concatHeap h m a ks r
+    let (h, r2, _) ← concatHeap h m b ks r
+    let rd := fun (i : Nat) => hex (h.getD i [])
+    pure s!"a={rd a} b={rd b} r={rd rr} aa={rd aa} m={rd m} r1={rd r1} r2={rd r2}"
+  go.getD "stuck"
+
 def handleStr : List String → String
+  | ["frame", k, a1, a2, b1, b2] =>
+    match parseNat? k, unhex a1, unhex a2, unhex b1, unhex b2 with
+    | some k, some a1, some a2, some b1, some b2 => if k = 0 then "bad-op" else strFrame k a1 a2 b1 b2
+    | _, _, _, _, _ => "bad-op"
   | ["ops", k, a, b] =>
     match parseNat? k, unhex a, unhex b with
     | some k, some a, some b => if k = 0 then "bad-op" else strOps k a b
